@@ -33,6 +33,15 @@ CLAIMED = {
          "Static decision, for all in-width field values at once, of acceptance, Size() = encoded length, decode(encode(v)) = v, the lower-bound length convention required by the command-stream decoder, and rejection of truncated payloads, for 37 payload types / 50 variants; and equality of the multicast key blocks with TS005. Command sequences are covered by size/stream agreement rather than enumerated; behaviour outside the specified widths is not claimed.",
          "Trusts internal/absint, props/wirespec_app.go (widths, gate variants), AES as an uninterpreted function.",
          "DESIGN.md §3 C18"),
+
+ "C01": ("bit-precise abstract interpretation of PHYPayload/MACPayload/FHDR/JoinAccept/CFList MarshalBinary then UnmarshalBinary on fully symbolic frames, one run per structural configuration (MType x FOpts length x FPort class x payload length x CFList shape), leaf-by-leaf equality of BDD vectors",
+         "Static decision, for all field values of each of ~400 structural frame configurations at once, that encoding succeeds with the expected length and decoding the encoder's abstract output reproduces every leaf of the frame (FCnt mod 2^16; FOpts/FRMPayload as bytes), plus exact inversion of the fixed-layout sub-structures and the delegation of the text form. Structural configurations are enumerated (finite); values are not. MAC-command level equality of FOpts/FRMPayload contents is C07's subject.",
+         "Trusts internal/absint; ClassB/FPending share a wire bit and are constrained equal; mask CFLists ending in an all-zero mask are excluded (trimmed by design).",
+         "DESIGN.md §3 C01"),
+ "C08": ("bit-precise abstract interpretation in the decode-then-encode direction on fully symbolic byte strings, one run per (MType, total length 0..44, FOptsLen nibble / rejoin type class) order type, with interpreter-requested trace partitioning; decoder accept condition as a BDD, containment in the encoder's accept condition and bitwise wire identity",
+         "Static decision for every byte string of each of 3195 length/shape configurations at once: wherever the frame decoder accepts (reserved MHDR bits zero) the encoder does not refuse, and the re-encoding is the same length and bit-identical to the input; refutations carry a concrete frame. Lengths above 44 add no new order type of the decoders' length comparisons.",
+         "Trusts internal/absint. Join-accept and proprietary payloads are opaque bytes at this level.",
+         "DESIGN.md §3 C08"),
 }
 
 NOT_APPLICABLE = {
